@@ -423,6 +423,13 @@ write_header(struct archive_write *a, struct archive_entry *entry)
 		ret_final = ARCHIVE_WARN;
 	}
 	/* Include trailing null */
+	if (len + 1 > 0xffff) {
+		/* h_namesize cannot tell where the name ends. */
+		archive_set_error(&a->archive, ENAMETOOLONG,
+		    "Pathname too long");
+		ret_final = ARCHIVE_FAILED;
+		goto exit_write_header;
+	}
 	pathlength = (int)len + 1;
 
 	h.h_magic = la_swap16(070707);
@@ -461,16 +468,44 @@ write_header(struct archive_write *a, struct archive_entry *entry)
 	}
 	h.h_mode = la_swap16(h.h_mode);
 
+	/* Only the low bits of a value that overflows its field are
+	 * stored; say so. */
+	if (archive_entry_uid(entry) > 0xffff) {
+		archive_set_error(&a->archive, ERANGE,
+		    "Numeric user ID too large");
+		ret_final = ARCHIVE_WARN;
+	}
 	h.h_uid = la_swap16((uint16_t)archive_entry_uid(entry));
+	if (archive_entry_gid(entry) > 0xffff) {
+		archive_set_error(&a->archive, ERANGE,
+		    "Numeric group ID too large");
+		ret_final = ARCHIVE_WARN;
+	}
 	h.h_gid = la_swap16((uint16_t)archive_entry_gid(entry));
+	if (archive_entry_nlink(entry) > 0xffff) {
+		archive_set_error(&a->archive, ERANGE,
+		    "Link count too large");
+		ret_final = ARCHIVE_WARN;
+	}
 	h.h_nlink = la_swap16((uint16_t)archive_entry_nlink(entry));
 
 	if (archive_entry_filetype(entry) == AE_IFBLK
-	    || archive_entry_filetype(entry) == AE_IFCHR)
+	    || archive_entry_filetype(entry) == AE_IFCHR) {
+		if ((uint64_t)archive_entry_rdev(entry) > 0xffff) {
+			archive_set_error(&a->archive, ERANGE,
+			    "Device number too large");
+			ret_final = ARCHIVE_WARN;
+		}
 		h.h_majmin = la_swap16(archive_entry_rdev(entry));
-	else
+	} else
 		h.h_majmin = 0;
 
+	if (archive_entry_mtime(entry) < 0 ||
+	    (int64_t)archive_entry_mtime(entry) > 0xffffffffLL) {
+		archive_set_error(&a->archive, ERANGE,
+		    "File modification time out of range");
+		ret_final = ARCHIVE_WARN;
+	}
 	h.h_mtime = la_swap32((uint32_t)archive_entry_mtime(entry));
 	h.h_namesize = la_swap16(pathlength);
 
